@@ -214,7 +214,9 @@ type LayoutStats struct {
 }
 
 var commentBodies = []string{
-	" c ", "", " %token X ", " { ", " } ", " s : A ; ", " ' ", " \" ", " %% ", " /* ", " // ", "*", " %{ ",
+	" c ", " x y z ", " %token X ", " { ", " } ", " s : A ; ", " ' ", " \" ", " %% ", " /* ", " // ", " * ", " %{ ", " a*b ", " a/b ",
+	// comment shapes the C-style lexers get wrong
+	"", "*", " c *", "/", "/ c ", "**",
 }
 
 // Render produces the grammar file text.
@@ -252,7 +254,7 @@ func (s *Spec) Render(o RenderOpts) string {
 	// prologue
 	toks = append(toks, tok{text: "%{" + s.Prologue + "%}", kind: kRaw, nl: true})
 	if !s.NoUnion {
-		toks = append(toks, tok{text: "%union {" + s.Union + "}", kind: kRaw, nl: true})
+		toks = append(toks, tok{text: "%union {" + s.Union + "}", kind: kPunct, nl: true})
 	}
 	// %token lines: group consecutive terminals with the same tag on one
 	// line or split them, by layout choice.
@@ -288,7 +290,11 @@ func (s *Spec) Render(o RenderOpts) string {
 		if t.Decl != "token" {
 			continue
 		}
-		if len(pending) > 0 && (pending[0].Tag != t.Tag || L.Choice(2) == 0) {
+		// yaccgo reads a character literal that directly follows a token name
+		// as that token's alias (Parser.go:parseTokendef), so a literal never
+		// follows a name on the same %token line
+		aliasPos := len(pending) > 0 && t.IsLit() && !pending[len(pending)-1].IsLit()
+		if len(pending) > 0 && (pending[0].Tag != t.Tag || aliasPos || L.Choice(2) == 0) {
 			if pending[0].Tag == t.Tag {
 				st.SplitDecls++
 			}
@@ -399,6 +405,10 @@ func (s *Spec) Render(o RenderOpts) string {
 		must := t.kind == kRaw || (t.kind == kWord && next.kind == kWord)
 		// a number directly before an identifier or vice versa is covered by kWord
 		sep := pickSep(L, t.nl, must, st)
+		if t.kind == kRaw && (sep == "" || !strings.ContainsAny(sep[:1], " \t\n")) {
+			// the lexer only recognises %} when whitespace (or EOF) follows
+			sep = "\n" + sep
+		}
 		if boundary && !strings.Contains(sep, "\n") {
 			st.NoNewlineGap++
 		}
